@@ -615,11 +615,13 @@ EOF_MOD = ["self._params.fp.crc32", "self._params.fp.file_size_eof", "self._para
 
 C("_handle_eof_pdu", arg_types={**SELF, "eof_pdu": T.Obj(EofPdu)}, props=("C12", "C13", "C01"), result=T.Opt(T.Bool),
   requires=REQ_INV + [("DestInvTracker", lambda o: tracker_inv(o.self))] + DEFAULT + [
-      ("receiving", lambda o: And_(ne(o.self.states.state, IDLE),
-                                   step_is(o.self, STEP.RECEIVING_FILE_DATA, STEP.RECV_FILE_DATA_WITH_CHECK_LIMIT_HANDLING))),
+      # (an EOF (cancel) is also handed over while the Metadata PDU is still missing: its cancel response needs no metadata)
+      ("receiving", lambda o: And_(ne(o.self.states.state, IDLE), Or_(
+          step_is(o.self, STEP.RECEIVING_FILE_DATA, STEP.RECV_FILE_DATA_WITH_CHECK_LIMIT_HANDLING),
+          And_(step_is(o.self, STEP.WAITING_FOR_METADATA), _eof_is_cancel(o), eq(mode(o.self), ACK))))),
       # acknowledged mode: the furthest segment end never exceeds the progress (no write was dropped after a
       # successful one, see DESIGN: environment assumption on the filestore), and no EOF was seen before
-      ("acked_extent", lambda o: Implies_(eq(mode(o.self), ACK), And_(
+      ("acked_extent", lambda o: Implies_(And_(eq(mode(o.self), ACK), Not_(step_is(o.self, STEP.WAITING_FOR_METADATA))), And_(
           o.self._params.acked_params.last_end_offset <= o.self._params.fp.progress, isnone(o.self._params.fp.file_size_eof)))),
       ("pdu_wf", lambda o: pdu_wf(o.eof_pdu)),
       ("not_cancelled", lambda o: ne(o.self._params.completion_disposition, CANCELED)),
@@ -1424,23 +1426,35 @@ def _size_error_cancels(o, n):
                 n.self._pdus_to_be_sent.length() == o.self._pdus_to_be_sent.length())
 
 
+def _eofwm_cancel(o):
+    return ne(o.eof_pdu.condition_code, CC.NO_ERROR)
+
+
 def _unless_size_error(f):
-    return lambda o, n, r: Implies_(Not_(_eofwm_size_error(o)), f(o, n, r))
+    """for an EOF (no error) that is not a File Size Error"""
+    return lambda o, n, r: Implies_(And_(Not_(_eofwm_cancel(o)), Not_(_eofwm_size_error(o))), f(o, n, r))
+
+
+def _unless_size_error_or(f):
+    """for every EOF PDU that is not a File Size Error (an EOF (cancel) is never one: its size is the sender's progress)"""
+    return lambda o, n, r: Implies_(Or_(_eofwm_cancel(o), Not_(_eofwm_size_error(o))), f(o, n, r))
 
 
 C("_handle_eof_without_previous_metadata", arg_types={**SELF, "eof_pdu": T.Obj(EofPdu)}, props=("C06", "C05", "C15", "C01"), result=None,
   requires=REQ_INV + REQ_TRK + DEFAULT + [("acked_busy", _busy_acked), ("pdu_wf", lambda o: pdu_wf(o.eof_pdu)),
                                           ("waiting_for_metadata", lambda o: step_is(o.self, STEP.WAITING_FOR_METADATA)),
-                                          # (part of the step invariant) what is known of the extent so far is covered by the progress
+                                          ("DestStepInv", lambda o: step_inv(o.self)),
+                                          # (follows from the step invariant) what is known of the extent so far is covered by the progress
                                           ("extent_covered_by_progress", lambda o: And_(
                                               _ap(o.self).last_end_offset <= o.self._params.fp.progress,
                                               opt(o.self._params.fp.file_size_eof, lambda s: s <= o.self._params.fp.progress, True)))],
-  modifies=EOFWM_MOD + ["self._params.completion_disposition", "self._params.finished_params.condition_code"],
+  modifies=EOFWM_MOD + ["self._params.completion_disposition", "self._params.finished_params.condition_code",
+                        "self._params.finished_params.fault_location", "self._params.finished_params.delivery_code"],
   ensures=[
       # F13b (fixed): an EOF PDU that announces less than the data already seen is a File Size Error, not a new extent
       Clause("C06.eof_smaller_than_received_data_is_a_file_size_error", lambda o, n, r: Implies_(
-          _eofwm_size_error(o), _size_error_cancels(o, n)), ("C06", "C10", "C14")),
-      Clause("C01.eof_fields_stored", _unless_size_error(lambda o, n, r: And_(
+          And_(Not_(_eofwm_cancel(o)), _eofwm_size_error(o)), _size_error_cancels(o, n)), ("C06", "C10", "C14")),
+      Clause("C01.eof_fields_stored", _unless_size_error_or(lambda o, n, r: And_(
           opt(n.self._params.fp.crc32, lambda c: Eq_(c, o.eof_pdu.file_checksum), False),
           opt(n.self._params.fp.file_size_eof, lambda s: Eq_(s, o.eof_pdu.file_size), False),
           n.self._params.fp.progress == o.eof_pdu.file_size)), ("C01",)),
@@ -1448,19 +1462,30 @@ C("_handle_eof_without_previous_metadata", arg_types={**SELF, "eof_pdu": T.Obj(E
           B(_ap(n.self).metadata_missing),
           Implies_(o.eof_pdu.file_size > 0, z3.ForAll([TR.X], TR.view(trk(n.self), TR.X) == z3.And(0 <= TR.X, TR.X < o.eof_pdu.file_size))),
           Implies_(o.eof_pdu.file_size == 0, z3.ForAll([TR.X], TR.view(trk(n.self), TR.X) == TR.view(trk(o.self), TR.X))))), ("C06",)),
-      Clause("C15.eof_recv_indication", _unless_size_error(lambda o, n, r: _eofwm_ind_ok(o, n)), ("C15",)),
-      # C12: an EOF (cancel) finishes the transaction with the EOF's condition -- also when the Metadata PDU is missing
-      Clause("C12.eof_cancel_before_metadata", _unless_size_error(lambda o, n, r: Implies_(ne(o.eof_pdu.condition_code, CC.NO_ERROR), And_(
-          eq(n.self._params.completion_disposition, CANCELED), Eq_(_fpar(n.self).condition_code, o.eof_pdu.condition_code)))), ("C12",),
-             assumable=False),   # open finding F16: callers must not build on a clause the code does not meet
-      Clause("C03.eof_is_acknowledged", _unless_size_error(lambda o, n, r: _eof_ack_emitted(o, n)), ("C03", "C02")),
-      Clause("C03.next_step_sends_the_eof_ack", _unless_size_error(lambda o, n, r: And_(
+      Clause("C15.eof_recv_indication", _unless_size_error_or(lambda o, n, r: _eofwm_ind_ok(o, n)), ("C15",)),
+      # C12 (finding F16, repaired): an EOF (cancel) finishes the transaction with the EOF's condition and the sender as fault location
+      # -- also when the Metadata PDU is missing; nothing is re-requested for it
+      Clause("C12.eof_cancel_before_metadata", lambda o, n, r: Implies_(_eofwm_cancel(o), And_(
+          eq(n.self._params.completion_disposition, CANCELED), Eq_(_fpar(n.self).condition_code, o.eof_pdu.condition_code),
+          eq(_fpar(n.self).delivery_code, DeliveryCode.DATA_INCOMPLETE),
+          z3.ForAll([TR.X], TR.view(trk(n.self), TR.X) == TR.view(trk(o.self), TR.X)),
+          len(fault_cbs(n)) == 0)), ("C12",)),
+      Clause("state.eof_cancel_before_metadata", lambda o, n, r: Implies_(_eofwm_cancel(o), And_(
+          eq(n.self._params.completion_disposition, CANCELED), Eq_(_fpar(n.self).condition_code, o.eof_pdu.condition_code),
+          eq(_fpar(n.self).delivery_code, DeliveryCode.DATA_INCOMPLETE),
+          unchanged(o, n, "_params.acked_params.metadata_missing", "_params.acked_params.last_end_offset"),
+          z3.ForAll([TR.X], TR.view(trk(n.self), TR.X) == TR.view(trk(o.self), TR.X)))), ("C12", "C10")),
+      Clause("C03.eof_is_acknowledged", _unless_size_error_or(lambda o, n, r: _eof_ack_emitted(o, n)), ("C03", "C02")),
+      Clause("C03.next_step_sends_the_eof_ack", _unless_size_error_or(lambda o, n, r: And_(
           step_is(n.self, STEP.SENDING_EOF_ACK_PDU), n.self._pdus_to_be_sent.length() == o.self._pdus_to_be_sent.length() + 1)), ("C03", "C02")),
       Clause("C05.nothing_written", lambda o, n, r: len(vfs_ops(n)) == 0, ("C05",)),
       Clause("C14.no_fault_otherwise", _unless_size_error(lambda o, n, r: len(fault_cbs(n)) == 0), ("C14", "C05")),
       Clause("state.disposition_untouched_otherwise", _unless_size_error(lambda o, n, r: unchanged(
-          o, n, "_params.completion_disposition", "_params.finished_params.condition_code")), ("C06", "C10")),
-      Clause("state.size_error_cancels", lambda o, n, r: Implies_(_eofwm_size_error(o), And_(
+          o, n, "_params.completion_disposition", "_params.finished_params.condition_code",
+          "_params.finished_params.delivery_code")), ("C06", "C10")),
+      Clause("state.delivery_code_untouched_by_size_error", lambda o, n, r: Implies_(
+          And_(Not_(_eofwm_cancel(o)), _eofwm_size_error(o)), unchanged(o, n, "_params.finished_params.delivery_code")), ("C06", "C10")),
+      Clause("state.size_error_cancels", lambda o, n, r: Implies_(And_(Not_(_eofwm_cancel(o)), _eofwm_size_error(o)), And_(
           step_is(n.self, STEP.TRANSFER_COMPLETION), eq(n.self._params.completion_disposition, CANCELED),
           Eq_(_fpar(n.self).condition_code, CC.FILE_SIZE_ERROR),
           unchanged(o, n, "_params.fp.progress", "_params.fp.file_size_eof", "_params.fp.crc32", "_params.acked_params.metadata_missing"),
@@ -1470,6 +1495,7 @@ C("_handle_eof_without_previous_metadata", arg_types={**SELF, "eof_pdu": T.Obj(E
       Clause("inv.tracker", lambda o, n, r: tracker_inv(n.self), ("C06", "C10")),
   ],
   effects={"user", "fault_cb"}, modular=True)
+CONTRACTS[-1].inline_callees = {"DestHandler._handle_eof_pdu"}   # (an EOF (cancel) is handed to the regular EOF handler)
 
 
 # ==============================================================================================
@@ -1478,7 +1504,9 @@ C("_handle_eof_without_previous_metadata", arg_types={**SELF, "eof_pdu": T.Obj(E
 WMM_MOD = sorted(set(MD_MOD + FDWM_MOD + EOFWM_MOD + ["self._params.acked_params.nak_activity_counter",
                                                      "self._params.acked_params.procedure_timer.expired",
                                                      "self._params.completion_disposition",
-                                                     "self._params.finished_params.condition_code"]))
+                                                     "self._params.finished_params.condition_code",
+                                                     "self._params.finished_params.fault_location",
+                                                     "self._params.finished_params.delivery_code"]))
 
 
 def _wmm_fd_beyond_eof(o):
@@ -1531,10 +1559,7 @@ C("_handle_waiting_for_missing_metadata", arg_types={**SELF, "packet_holder": T.
   props=("C03", "C04", "C06", "C10", "C14"), result=None,
   requires=REQ_INV + REQ_TRK + DEFAULT + [("waiting_for_metadata", _wmm_pre),
             ("names_together", lambda o: (_hp(o).dest_file_name is None) == (_hp(o).source_file_name is None) if _hp_is(o, MetadataPdu) else True),
-            # (part of the step invariant) what is known of the extent so far is covered by the progress
-            ("extent_covered_by_progress", lambda o: And_(
-                _ap(o.self).last_end_offset <= o.self._params.fp.progress,
-                opt(o.self._params.fp.file_size_eof, lambda s: s <= o.self._params.fp.progress, True))),
+            ("DestStepInv", lambda o: step_inv(o.self)),
             ],
   modifies=WMM_MOD,
   cond_frames=[("C10.other_pdus_are_ignored", lambda o: True if not (_hp_is(o, _FD) or _hp_is(o, MetadataPdu) or _hp_is(o, EofPdu)) else False,
@@ -1558,7 +1583,8 @@ C("_handle_waiting_for_missing_metadata", arg_types={**SELF, "packet_holder": T.
       Clause("C06.file_data_beyond_eof_size_is_a_file_size_error", lambda o, n, r: (
           Implies_(_wmm_fd_beyond_eof(o), _size_error_cancels_wmm(o, n)) if _hp_is(o, _FD) else True), ("C06", "C10", "C14")),
       Clause("C06.eof_smaller_than_received_data_is_a_file_size_error", lambda o, n, r: (
-          Implies_(o.self._params.fp.progress > _hp(o).file_size, _size_error_cancels_wmm(o, n)) if _hp_is(o, EofPdu) else True),
+          Implies_(And_(eq(_hp(o).condition_code, CC.NO_ERROR), o.self._params.fp.progress > _hp(o).file_size),
+                   _size_error_cancels_wmm(o, n)) if _hp_is(o, EofPdu) else True),
           ("C06", "C10", "C14")),
       # F13: File Data arriving here after the EOF PDU (ranges already tracked) breaks the bookkeeping: excluded by the
       # precondition `extent_not_tracked`; without an EOF so far the invariants are kept
@@ -1830,7 +1856,7 @@ def step_inv(h):
             Implies_(ne(h.states.state, IDLE), step_is(h, STEP.WAITING_FOR_METADATA, STEP.WAITING_FOR_MISSING_DATA, STEP.SENDING_EOF_ACK_PDU,
                                                       STEP.TRANSFER_COMPLETION, STEP.SENDING_FINISHED_PDU, STEP.WAITING_FOR_FINISHED_ACK)))),
         Implies_(And_(step_is(h, STEP.SENDING_EOF_ACK_PDU), B(ap.metadata_missing)), And_(
-            ne(p.completion_disposition, CANCELED), eq(p.finished_params.delivery_code, DeliveryCode.DATA_INCOMPLETE),
+            eq(p.finished_params.delivery_code, DeliveryCode.DATA_INCOMPLETE),
             opt(fp.file_size_eof, lambda s: fp.progress == s, False))),
         Implies_(Not_(B(ap.deferred_lost_segment_detection_active)), Implies_(step_is(
             h, STEP.RECEIVING_FILE_DATA, STEP.SENDING_EOF_ACK_PDU, STEP.WAITING_FOR_METADATA), isnone(ap.procedure_timer))),
